@@ -59,6 +59,17 @@ def node_part(tier, seed, res, lean, pid, kinds, ops=None):
             f'{pid.lower()}-node-correspondence',
             f'the real {b["record"].get("t")} and CM.Model.Bag disagree: {str(b["diff"])[:300]}; the node-level theorems are no longer tied to the code',
             {'suite': 'S-NODE', 'theorems': [t for t in lean['theorems'] if '.node_' in t], **b}, found_input=False))
+    if 'stack' in kinds and ops is None:
+        # end to end through the model's own compiler: real final container -> Bag.validate / getNode / compileGraph -> VM model
+        e2e = pmap(suite_node.run_e2e_shard, [(seed * 2203 + 5 * i + 1, 10 if tier == 'quick' else 60) for i in range(shards)])
+        stats['e2e'] = merge_stats([o[0] for o in e2e])
+        e2e_bad = [b for o in e2e for b in o[1]]
+        stats['e2e']['disagreements'] = len(e2e_bad)
+        if e2e_bad:
+            res.violations.append(Violation(
+                f'{pid.lower()}-e2e-correspondence',
+                f'a field of a real pipeline and the model\'s own compilation of its container (Bag.compileGraph + VM) differ: {str(e2e_bad[0]["diff"])[:300]}',
+                {'suite': 'S-NODE/e2e', 'theorems': [t for t in lean['theorems'] if '.node_' in t], **e2e_bad[0]}, found_input=False))
     stats['theorem_contradicted'] = len(contradicted)
     stats['disagreements'] = len(bad)
     return stats
